@@ -839,3 +839,75 @@ def check_C18(rep, scr, tier, seed):
     return rep.finish('every erase entry point x alignments 0..7 x lengths across the unrolled body x fill values, canaries on both sides, both build configurations; strzero_s on terminated / leading-NUL / full buffers; non-trivial = distinct (function, count, alignment, build, result)',
                       'make -C /verif/coq Properties_C18.vo + harness/check.py C18')
 REGISTRY['C18'] = check_C18
+
+# ------------------------------------------------------------------ C20: allocation failure
+def gen_alloc_inputs(consts):
+    """inputs reaching each allocation site: (site, func, blocks, args, dest block index or None)"""
+    W = wenc; out = []
+    for f in ('sprintf_s', 'snprintf_s', 'vsprintf_s', 'vsnprintf_s'):
+        out.append(('engine-ls', f, [('R', b'\x55' * 32), ('R', b'[%ls]\0'), ('R', W('hey'))], [(0, 0), 32, UNK, (1, 0), 'V', (2, 0)], 0))
+        out.append(('engine-ls-conv-error', f, [('R', b'\x55' * 32), ('R', b'[%ls]\0'), ('R', W('a') [:4] + (0xd800).to_bytes(4, 'little') + b'\0\0\0\0')], [(0, 0), 32, UNK, (1, 0), 'V', (2, 0)], 0))
+        out.append(('engine-ls-nospace', f, [('R', b'\x55' * 4), ('R', b'[%ls]\0'), ('R', W('heyheyhey'))], [(0, 0), 4, UNK, (1, 0), 'V', (2, 0)], 0))
+        for fmt, arg in ((b'%Lf tail\0', 'G1.5'), (b'%Le x\0', 'G12.5'), (b'%Lg!\0', 'G0.5'), (b'%La.\0', 'G1.0'), (b'%a.\0', dbits(1.5))):
+            out.append(('engine-longdouble', f, [('R', b'\x55' * 64), ('R', fmt)], [(0, 0), 64, UNK, (1, 0), 'V', arg], 0))
+    for f in ('swprintf_s', 'snwprintf_s', 'vswprintf_s', 'vsnwprintf_s'):
+        out.append(('wprintf-probe', f, [('R', b'\x55' * (4 * 520)), ('R', W('%600d'))], [(0, 0), 520, UNK, (1, 0), 'V', 7], 0))
+    res = b'\xee' * 4
+    out.append(('wcsicmp', 'wcsicmp_s', [('R', W('AbC')), ('R', W('aBc')), ('R', res)], [(0, 0), 4, (1, 0), 4, (2, 0), UNK, UNK], None))
+    out.append(('wcsnatcmp', 'wcsnatcmp_s', [('R', W('a10')), ('R', W('A9')), ('R', res)], [(0, 0), 4, (1, 0), 3, 1, (2, 0), UNK, UNK], None))
+    marks = ''.join(chr(0x300 + (i % 20)) for i in range(40))
+    for mode in (0, 1):
+        out.append(('wcsnorm-%d' % mode, 'wcsnorm_s', [('R', b'\x55' * (4 * 128)), ('R', W('a' + marks + 'é')), ('R', b'\xee' * 8)], [(0, 0), 128, (1, 0), mode, (2, 0), UNK], 0))
+    return out
+
+def check_C20(rep, scr, tier, seed):
+    impl = vlib.build_impl(scr, 'O1'); consts = vlib.consts(scr, impl); vlib.write_gen_consts(consts)
+    vlib.build_model()
+    pr = proofs(rep, scr, 'C20')
+    inputs = gen_alloc_inputs(consts)
+    # pass 1: no failure, count the requests each input makes
+    def mk(i, site, func, blocks, args, k): return vlib.Case('a%d_%d' % (i, k), func, blocks, ['K%d' % k] + args, {'cls': 'alloc', 'site': site, 'k': k, 'func': func})
+    base = [mk(i, s, f, b, a, 0) for i, (s, f, b, a, d) in enumerate(inputs)]
+    cf = scr.dir + '/alloc0.txt'
+    open(cf, 'w').write(''.join(x.line() + '\n' for x in base))
+    o0 = vlib.run_impl(impl, cf, base, locale='C.UTF-8')
+    cases = []
+    for i, (s, f, b, a, d) in enumerate(inputs):
+        o = o0.get('a%d_0' % i)
+        nreq = o.alloc[0] if o and o.alloc else 0
+        for k in range(0, nreq + 2): cases.append((mk(i, s, f, b, a, k), d))
+    cf = scr.dir + '/alloc1.txt'
+    open(cf, 'w').write(''.join(x.line() + '\n' for x, _ in cases))
+    oi = vlib.run_impl(impl, cf, [x for x, _ in cases], locale='C.UTF-8')
+    sites_reached = {}
+    for x, dblk in cases:
+        o = oi.get(x.id); m = x.meta
+        rep.evals += 1; rep.count('%s/%s' % (m['site'], x.func))
+        if o is None: continue
+        al = o.alloc or (0, 0, 0, 0)
+        sites_reached[m['site']] = max(sites_reached.get(m['site'], 0), al[0])
+        rep.nontrivial.add((m['site'], x.func, m['k'], o.ret, al))
+        if len(rep.samples) < 8 and rep.evals % 13 == 3: rep.samples.append({'site': m['site'], 'func': x.func, 'fail_request': m['k'], 'impl': o.raw[:140]})
+        fails = []
+        if o.fault != '-' or o.ret in ('FAULT', 'CRASH'): fails.append(('crash', 'request %d failed and the call crashed (%s)' % (m['k'], o.fault)))
+        else:
+            if al[3] != 0: fails.append(('leak', '%d block(s) still allocated at return (request %d failed: %s)' % (al[3], m['k'], bool(al[2]))))
+            if al[2]:
+                if o.ret == '0' or not o.handlers: fails.append(('not-reported', 'a request failed but the call returned %s with handlers %s' % (o.ret, o.handlers)))
+                if dblk is not None and o.blocks[dblk][:1] not in (b'\0',): fails.append(('not-cleared', 'a request failed but dest was not cleared'))
+        for kind, text in fails:
+            kid = None
+            for kf in rep.known:
+                if m['site'] in kf.get('sites', '').split(',') and kind in kf.get('kinds', '').split(','): kid = kf['id']
+            if kid: rep.known_hits[kid] = rep.known_hits.get(kid, 0) + 1
+            else: rep.violation('%s [%s]: %s' % (x.func, m['site'], text), {'key': (m['site'], x.func, kind), 'property': 'C20', 'function': x.func, 'site': m['site'], 'failure': kind, 'fail_request': m['k'],
+                                'case': x.to_json(), 'case_line': x.line(), 'impl_outcome': o.raw})
+    rep.extra['requests_per_site'] = sites_reached
+    for s, nmax in sites_reached.items():
+        if nmax == 0 and not s.endswith('nospace'): rep.notes.append('site %s made no allocation with the chosen input' % s)
+    report_proofs(rep, pr, 'C20')
+    rep.trusted = TRUSTED_COMMON + ['allocation skeletons (AllocModel.v) are hand-written abstractions of the allocating paths; the tie is the per-site, per-position failure injection on the real library (-Wl,--wrap=malloc,realloc,calloc,free)',
+                                    'wcsnorm_s and wcsnatcmp_s sites have no skeleton yet (implementation-side only)']
+    return rep.finish('for every allocation site an input reaching it, then each request k = 1..n failed in turn (and none); non-trivial = distinct (site, function, k, return, allocation counters)',
+                      'make -C /verif/coq Properties_C20.vo + harness/check.py C20', level='proof')
+REGISTRY['C20'] = check_C20
